@@ -382,7 +382,7 @@ int vf_clock_gettime(int clk, void *ts) {
 }
 /* harness access to the model clock: ghost read (no time passes) and harness-driven time passage
  * (the amount is a harness input, so the native replay can follow it) */
-int64_t vf_clock_peek(void) { return vf_clock_ns; }
+uint64_t vf_clock_peek(void) { return (uint64_t)vf_clock_ns; }
 void vf_clock_advance(uint64_t d) {
   __CPROVER_assume(d <= (uint64_t)(INT64_MAX - vf_clock_ns));
   vf_clock_ns += (int64_t)d;
